@@ -21,6 +21,7 @@ package snapshot
 //@   ensures err_zero: err != nil ==> skip == 0
 //@   ensures payload_of_wire_type: err == nil ==> skip == fieldPayloadLen(data, uint64(wireType))
 //@   ensures accepts_every_field_that_fits: iff(err == nil, fieldFits(data, uint64(wireType)))
+//@   ensures a_truncated_field_is_not_the_end_of_input: err != io.EOF
 
 // KV.Unmarshal against the schema, one field per iteration: with the state at
 // the head of the iteration remembered in ghost variables, a completed
